@@ -21,6 +21,44 @@ fn cfg(tier: Tier) -> GenCfg {
 }
 
 /// exactly what the command line does for --check-unused-args
+/// the unused-argument report computed in a child process with a wall-clock limit; None when the
+/// child does not finish (or dies)
+pub fn unused_report_bounded(text: &str, secs: u64) -> Option<Result<Vec<String>, String>> {
+    use std::io::Write;
+    use std::process::{Command, Stdio};
+    let exe = std::env::current_exe().ok()?;
+    let mut child = Command::new(exe).arg("helper-unused").stdin(Stdio::piped()).stdout(Stdio::piped()).stderr(Stdio::null()).spawn().ok()?;
+    child.stdin.take()?.write_all(text.as_bytes()).ok()?;
+    let start = std::time::Instant::now();
+    loop {
+        match child.try_wait() {
+            Ok(Some(_)) => break,
+            Ok(None) => {
+                if start.elapsed().as_secs() >= secs {
+                    let _ = child.kill();
+                    let _ = child.wait();
+                    return None;
+                }
+                std::thread::sleep(std::time::Duration::from_millis(20));
+            }
+            Err(_) => return None,
+        }
+    }
+    let out = child.wait_with_output().ok()?;
+    let text = String::from_utf8_lossy(&out.stdout).to_string();
+    let mut lines = text.lines();
+    match lines.next() {
+        Some("OK") => Some(Ok(lines.map(|l| l.to_string()).collect())),
+        Some(l) if l.starts_with("ERR") => Some(Err(l.to_string())),
+        _ => None,
+    }
+}
+
+/// does the name occur in the source outside the first parameter list?
+fn tokens_outside_params(src: &str, name: &str) -> bool {
+    crate::gen_text::tokenize(src).iter().filter(|t| t.as_str() == name).count() >= 2
+}
+
 pub fn unused_report(text: &str) -> Result<Vec<String>, String> {
     let opts: Rc<dyn CompilerOpts> = Rc::new(chialisp::compiler::compiler::DefaultCompilerOpts::new("*verif*.clsp"));
     match chialisp::classic::clvm_tools::debug::check_unused(opts, text) {
@@ -217,6 +255,31 @@ impl Prop for C17Prop {
         // sub-expression whose value is discarded (never two different returned values)
         if v.sig.contains(":value-vs-failure:") {
             return Some("unused-check-ignores-failure-of-discarded-subexpressions");
+        }
+        // The partial evaluator compiles the branches of an `if` (com forms) without the
+        // let/assign bindings in force, so a parameter that reaches the result only through a bound
+        // name used under an `if` is not seen.  Excused only when spelling every `if` as the strict
+        // operator `i` (no com involved) makes the report of this very parameter disappear.
+        let src = v.case.get("source")?.as_str()?;
+        let name = v.case.get("parameter")?.as_str()?;
+        if src.contains("(if ") && tokens_outside_params(src, name) {
+            let strict = src.replace("(if ", "(i ");
+            match unused_report_bounded(&strict, 10) {
+                Some(Ok(unused)) => {
+                    if !unused.iter().any(|u| u == name) {
+                        return Some("evaluator-com-leaks-let-bound-names");
+                    }
+                }
+                Some(Err(_)) => {}
+                // the strict spelling of a recursive function never stops unrolling: for those
+                // programs the clause is replaced by "the program has a recursive function", whose
+                // parameters are the bindings com does not see
+                None => {
+                    if crate::props::c14::has_recursive_function(src) {
+                        return Some("evaluator-com-leaks-let-bound-names");
+                    }
+                }
+            }
         }
         None
     }
